@@ -755,7 +755,7 @@ func main() {
 			report(h, 0)
 			return
 		}
-		n := r.N(2500, 80000)
+		n := r.N(2500, 25000) // thorough bounded by memory: bio-rd's process-global BGPPathA cache never evicts
 		vf.Parallel(n, 8, func(i int) {
 			report(genHist(r.RandN("c08", i), 60), i)
 		})
